@@ -5,23 +5,36 @@
 //! own identity; requests are sent as 1..6 keep-alive requests per connection on 1..4
 //! concurrent connections, so the choice is observed at every position of a connection's
 //! history and under concurrency.  The reference router uses an independent glob matcher.
+//! The scenario type, generator, reference router and judge are shared with the tokio twin
+//! (props/tk.rs, C04T); only the part that runs the App differs.
 
 use crate::common::*;
 use crate::refs::glob::glob_match;
+#[cfg(not(feature = "tk"))]
 use crate::refs::http::*;
+#[cfg(not(feature = "tk"))]
 use crate::simhttp::*;
+#[cfg(not(feature = "tk"))]
 use humphrey::http::{Request, Response, StatusCode};
+#[cfg(not(feature = "tk"))]
 use humphrey::stream::Stream;
+#[cfg(not(feature = "tk"))]
 use humphrey::{App, SubApp};
+#[cfg(not(feature = "tk"))]
 use humsim::net::SocketAddr;
 use humsim::rng::Rng;
+#[cfg(not(feature = "tk"))]
 use humsim::sim;
 use serde::{Deserialize, Serialize};
 use serde_json::{json, Value};
+#[cfg(not(feature = "tk"))]
 use std::io::Write;
+#[cfg(not(feature = "tk"))]
 use std::sync::{Arc, Mutex};
+#[cfg(not(feature = "tk"))]
 use std::time::Duration;
 
+#[cfg(not(feature = "tk"))]
 pub struct C04;
 
 #[derive(Serialize, Deserialize, Clone, Debug, Default)]
@@ -63,6 +76,7 @@ pub fn route(scn: &Scn, r: &Rq) -> Option<String> {
     pick(&scn.default).map(|ri| format!("d{}{}", if r.ws { "w" } else { "r" }, ri))
 }
 
+#[cfg(not(feature = "tk"))]
 fn sub_app(tag: String, h: &HostCfg) -> SubApp<()> {
     let mut s: SubApp<()> = SubApp::new();
     for (ri, p) in h.routes.iter().enumerate() {
@@ -126,6 +140,174 @@ fn text_for(rng: &mut Rng, p: &str) -> String {
     s
 }
 
+/// The scenario of run seed `rs`.
+pub fn gen_scn(rs: u64, tier: Tier) -> Scn {
+    let mut rng = Rng::new(rs);
+    let nh = rng.range(0, 4) as usize;
+    let mut hosts = Vec::new();
+    for _ in 0..nh {
+        let mut pattern = match rng.below(5) {
+            0 => "example.com".to_string(),
+            1 => "*.example.com".to_string(),
+            2 => gen_pattern(&mut rng, ""),
+            3 => format!("{}:8080", gen_pattern(&mut rng, "a")),
+            _ => "*aab".to_string(),
+        };
+        if pattern == "*" || pattern.is_empty() {
+            pattern = "*.x".into();
+        }
+        let nr = rng.range(0, 6) as usize;
+        let nw = rng.range(0, 2) as usize;
+        hosts.push(HostCfg { pattern, routes: (0..nr).map(|_| gen_pattern(&mut rng, "/")).collect(), ws_routes: (0..nw).map(|_| gen_pattern(&mut rng, "/")).collect() });
+    }
+    let nr = rng.range(0, 6) as usize;
+    let nw = rng.range(0, 3) as usize;
+    let default = HostCfg { pattern: "*".into(), routes: (0..nr).map(|_| gen_pattern(&mut rng, "/")).collect(), ws_routes: (0..nw).map(|_| gen_pattern(&mut rng, "/")).collect() };
+    let nclients = rng.range(1, 4) as usize;
+    let mut clients = Vec::new();
+    for _ in 0..nclients {
+        let nreq = rng.range(1, if tier == Tier::Quick { 5 } else { 6 }) as usize;
+        let mut reqs = Vec::new();
+        for i in 0..nreq {
+            let ws = i + 1 == nreq && rng.chance(1, 4);
+            // choose a host value
+            let host = match rng.below(6) {
+                0 => None,
+                1 | 2 if !hosts.is_empty() => {
+                    let k = rng.usize_below(hosts.len());
+                    let p = hosts[k].pattern.clone();
+                    Some(text_for(&mut rng, &p))
+                }
+                3 => Some("a.example.example.com".to_string()),
+                4 => Some(gen_text(&mut rng, "", 2)),
+                _ => Some("example.com".to_string()),
+            };
+            let host = host.filter(|h| !h.is_empty() && !h.contains(' '));
+            // choose a path: derived from some route of some app, or free
+            let all_routes: Vec<String> = hosts.iter().chain(std::iter::once(&default)).flat_map(|h| if ws { h.ws_routes.clone() } else { h.routes.clone() }).collect();
+            let mut path = if !all_routes.is_empty() && rng.chance(3, 4) {
+                let k = rng.usize_below(all_routes.len());
+                let p = all_routes[k].clone();
+                text_for(&mut rng, &p)
+            } else {
+                gen_text(&mut rng, "/", 3)
+            };
+            if !path.starts_with('/') {
+                path = format!("/{}", path);
+            }
+            reqs.push(Rq { host, path, query: if rng.chance(1, 4) { "q=1&r=*".into() } else { String::new() }, ws });
+        }
+        clients.push(reqs);
+    }
+    let mut sim = SimParams::draw(&mut rng, true);
+    sim.rx_capacity = None;
+    sim.max_decisions = 300_000;
+    Scn { sim, hosts, default, clients }
+}
+
+/// Totality under shrinking: whatever the shrinker produced becomes a legal scenario.
+pub fn normalise(scn: &mut Scn) {
+    // totality under shrinking
+    for h in scn.hosts.iter_mut() {
+        if h.pattern == "*" || h.pattern.is_empty() {
+            h.pattern = "*.x".into();
+        }
+    }
+    for c in scn.clients.iter_mut() {
+        for r in c.iter_mut() {
+            if !r.path.starts_with('/') || r.path.contains(' ') || r.path.contains('?') {
+                r.path = format!("/{}", r.path.replace([' ', '?'], ""));
+            }
+            if let Some(h) = &r.host {
+                if h.trim() != h || h.is_empty() {
+                    r.host = None;
+                }
+            }
+        }
+        // a WebSocket request ends its connection
+        if let Some(p) = c.iter().position(|r| r.ws) {
+            c.truncate(p + 1);
+        }
+    }
+}
+
+/// Compare what every client got (`outs[client][request]`: Some(answer) or None = no answer)
+/// with the reference router.  `completed` = the run ended normally.
+pub fn judge(rr: &mut RunResult, scn: &Scn, got_all: &[Vec<Option<String>>], completed: bool) {
+    if scn.clients.len() > 1 {
+        rr.count("c04.concurrent_connections", 1);
+    }
+    let mut shape = String::new();
+    let mut nontrivial = false;
+    for (cid, reqs) in scn.clients.iter().enumerate() {
+        let got = got_all.get(cid).cloned().unwrap_or_default();
+        for (i, r) in reqs.iter().enumerate() {
+            rr.count("c04.requests", 1);
+            if r.ws {
+                rr.count("c04.ws_requests", 1);
+            }
+            if r.host.is_none() {
+                rr.count("c04.host_absent", 1);
+            }
+            if i > 0 {
+                rr.count("c04.second_or_later_request_on_connection", 1);
+            }
+            let want = route(&scn, r);
+            match &want {
+                Some(id) if id.starts_with('h') => rr.count("c04.answered_by_host_app", 1),
+                Some(_) => {
+                    if r.host.as_ref().map(|hv| scn.hosts.iter().any(|h| glob_match(&h.pattern, hv))).unwrap_or(false) {
+                        rr.count("c04.fell_through_to_default", 1);
+                    }
+                }
+                None => rr.count("c04.no_route_404", 1),
+            }
+            let nmatch: usize = scn.hosts.iter().chain(std::iter::once(&scn.default)).map(|h| if r.ws { &h.ws_routes } else { &h.routes }).map(|rs| rs.iter().filter(|p| glob_match(p, &r.path)).count()).max().unwrap_or(0);
+            let hmatch = r.host.as_ref().map(|hv| scn.hosts.iter().filter(|h| glob_match(&h.pattern, hv)).count()).unwrap_or(0);
+            if nmatch > 1 || hmatch > 1 {
+                rr.count("c04.shadowed_route_requests", 1);
+                if !scn.hosts.is_empty() && reqs.len() >= 2 {
+                    nontrivial = true;
+                }
+            }
+            let want_text = if r.ws { want.clone().map(|id| format!("WS-HANDLER {}", id)).unwrap_or_default() } else { want.clone().map(|id| format!("200 {}", id)).unwrap_or_else(|| "404 <html><body><h1>404 Not Found</h1></body></html>".to_string()) };
+            let g = got.get(i).cloned().flatten();
+            shape.push_str(&format!("{}>{:?};", if r.ws { "w" } else { "h" }, g.as_ref().map(|x| x.chars().take(12).collect::<String>())));
+            match g {
+                None => {
+                    if completed {
+                        rr.violate("C04/R1", format!("no-answer:{}", if r.ws { "ws" } else { "http" }), format!("client {} request {} (Host {:?}, path {:?}) got no response", cid, i, r.host, r.path));
+                    }
+                    break;
+                }
+                Some(g) => {
+                    if g != want_text {
+                        // classify: is it the matcher (pattern vs text) or the order?
+                        let kind = if want.is_some() && (g.starts_with("404") || g.is_empty()) {
+                            "matching-route-not-found"
+                        } else if want.is_none() {
+                            "non-matching-route-answered"
+                        } else {
+                            "wrong-handler"
+                        };
+                        rr.violate(
+                            "C04/R1",
+                            format!("{}:{}:{}", kind, if r.ws { "ws" } else { "http" }, if i == 0 { "first-request" } else { "later-request" }),
+                            format!("client {} request {} (Host {:?}, path {:?}, ws {}): answered {:?} but the reference router says {:?}; hosts {:?}, default routes {:?} ws {:?}", cid, i, r.host, r.path, r.ws, g, want_text, scn.hosts.iter().map(|h| format!("{} -> {:?} ws {:?}", h.pattern, h.routes, h.ws_routes)).collect::<Vec<_>>(), scn.default.routes, scn.default.ws_routes),
+                        );
+                        break;
+                    }
+                }
+            }
+        }
+    }
+    if nontrivial {
+        rr.shapes.push(fnv64(format!("{}|{:?}|{:?}", shape, scn.hosts.iter().map(|h| (h.pattern.clone(), h.routes.len())).collect::<Vec<_>>(), scn.default.routes).as_bytes()));
+    }
+    rr.sample = Some(json!({"hosts": scn.hosts.iter().map(|h| json!({"pattern": h.pattern, "routes": h.routes, "ws": h.ws_routes})).collect::<Vec<_>>(), "default_routes": scn.default.routes, "clients": scn.clients.iter().enumerate().map(|(cid, c)| json!({"requests": c.iter().map(|r| format!("Host={:?} {}{}", r.host, r.path, if r.ws { " (upgrade)" } else { "" })).collect::<Vec<_>>(), "answers": got_all.get(cid).cloned().unwrap_or_default()})).collect::<Vec<_>>()}));
+}
+
+#[cfg(not(feature = "tk"))]
 impl Prop for C04 {
     fn id(&self) -> &'static str {
         "C04"
@@ -157,67 +339,7 @@ impl Prop for C04 {
     }
 
     fn generate(&self, seed: u64, idx: u64, tier: Tier) -> Value {
-        let mut rng = Rng::new(run_seed(seed, "C04", idx));
-        let nh = rng.range(0, 4) as usize;
-        let mut hosts = Vec::new();
-        for _ in 0..nh {
-            let mut pattern = match rng.below(5) {
-                0 => "example.com".to_string(),
-                1 => "*.example.com".to_string(),
-                2 => gen_pattern(&mut rng, ""),
-                3 => format!("{}:8080", gen_pattern(&mut rng, "a")),
-                _ => "*aab".to_string(),
-            };
-            if pattern == "*" || pattern.is_empty() {
-                pattern = "*.x".into();
-            }
-            let nr = rng.range(0, 6) as usize;
-            let nw = rng.range(0, 2) as usize;
-            hosts.push(HostCfg { pattern, routes: (0..nr).map(|_| gen_pattern(&mut rng, "/")).collect(), ws_routes: (0..nw).map(|_| gen_pattern(&mut rng, "/")).collect() });
-        }
-        let nr = rng.range(0, 6) as usize;
-        let nw = rng.range(0, 3) as usize;
-        let default = HostCfg { pattern: "*".into(), routes: (0..nr).map(|_| gen_pattern(&mut rng, "/")).collect(), ws_routes: (0..nw).map(|_| gen_pattern(&mut rng, "/")).collect() };
-        let nclients = rng.range(1, 4) as usize;
-        let mut clients = Vec::new();
-        for _ in 0..nclients {
-            let nreq = rng.range(1, if tier == Tier::Quick { 5 } else { 6 }) as usize;
-            let mut reqs = Vec::new();
-            for i in 0..nreq {
-                let ws = i + 1 == nreq && rng.chance(1, 4);
-                // choose a host value
-                let host = match rng.below(6) {
-                    0 => None,
-                    1 | 2 if !hosts.is_empty() => {
-                        let k = rng.usize_below(hosts.len());
-                        let p = hosts[k].pattern.clone();
-                        Some(text_for(&mut rng, &p))
-                    }
-                    3 => Some("a.example.example.com".to_string()),
-                    4 => Some(gen_text(&mut rng, "", 2)),
-                    _ => Some("example.com".to_string()),
-                };
-                let host = host.filter(|h| !h.is_empty() && !h.contains(' '));
-                // choose a path: derived from some route of some app, or free
-                let all_routes: Vec<String> = hosts.iter().chain(std::iter::once(&default)).flat_map(|h| if ws { h.ws_routes.clone() } else { h.routes.clone() }).collect();
-                let mut path = if !all_routes.is_empty() && rng.chance(3, 4) {
-                    let k = rng.usize_below(all_routes.len());
-                    let p = all_routes[k].clone();
-                    text_for(&mut rng, &p)
-                } else {
-                    gen_text(&mut rng, "/", 3)
-                };
-                if !path.starts_with('/') {
-                    path = format!("/{}", path);
-                }
-                reqs.push(Rq { host, path, query: if rng.chance(1, 4) { "q=1&r=*".into() } else { String::new() }, ws });
-            }
-            clients.push(reqs);
-        }
-        let mut sim = SimParams::draw(&mut rng, true);
-        sim.rx_capacity = None;
-        sim.max_decisions = 300_000;
-        serde_json::to_value(Scn { sim, hosts, default, clients }).unwrap()
+        serde_json::to_value(gen_scn(run_seed(seed, "C04", idx), tier)).unwrap()
     }
 
     fn execute(&self, scenario: &Value) -> RunResult {
@@ -229,28 +351,7 @@ impl Prop for C04 {
                 return rr;
             }
         };
-        // totality under shrinking
-        for h in scn.hosts.iter_mut() {
-            if h.pattern == "*" || h.pattern.is_empty() {
-                h.pattern = "*.x".into();
-            }
-        }
-        for c in scn.clients.iter_mut() {
-            for r in c.iter_mut() {
-                if !r.path.starts_with('/') || r.path.contains(' ') || r.path.contains('?') {
-                    r.path = format!("/{}", r.path.replace([' ', '?'], ""));
-                }
-                if let Some(h) = &r.host {
-                    if h.trim() != h || h.is_empty() {
-                        r.host = None;
-                    }
-                }
-            }
-            // a WebSocket request ends its connection
-            if let Some(p) = c.iter().position(|r| r.ws) {
-                c.truncate(p + 1);
-            }
-        }
+        normalise(&mut scn);
         let addr: SocketAddr = "127.0.0.1:8084".parse().unwrap();
         let outs: Vec<Arc<Mutex<Vec<Option<String>>>>> = scn.clients.iter().map(|_| Arc::new(Mutex::new(Vec::new()))).collect();
         let (scn2, outs2) = (scn.clone(), outs.clone());
@@ -319,77 +420,8 @@ impl Prop for C04 {
         if outcome.status != sim::EndStatus::Completed {
             rr.violate("C04/R0", format!("run-did-not-complete:{:?}", outcome.status), format!("{:?}", outcome.threads.iter().filter(|t| t.state != "finished").map(|t| format!("{}:{}", t.name, t.op)).collect::<Vec<_>>()));
         }
-        if scn.clients.len() > 1 {
-            rr.count("c04.concurrent_connections", 1);
-        }
-        let mut shape = String::new();
-        let mut nontrivial = false;
-        for (cid, reqs) in scn.clients.iter().enumerate() {
-            let got = outs[cid].lock().unwrap().clone();
-            for (i, r) in reqs.iter().enumerate() {
-                rr.count("c04.requests", 1);
-                if r.ws {
-                    rr.count("c04.ws_requests", 1);
-                }
-                if r.host.is_none() {
-                    rr.count("c04.host_absent", 1);
-                }
-                if i > 0 {
-                    rr.count("c04.second_or_later_request_on_connection", 1);
-                }
-                let want = route(&scn, r);
-                match &want {
-                    Some(id) if id.starts_with('h') => rr.count("c04.answered_by_host_app", 1),
-                    Some(_) => {
-                        if r.host.as_ref().map(|hv| scn.hosts.iter().any(|h| glob_match(&h.pattern, hv))).unwrap_or(false) {
-                            rr.count("c04.fell_through_to_default", 1);
-                        }
-                    }
-                    None => rr.count("c04.no_route_404", 1),
-                }
-                let nmatch: usize = scn.hosts.iter().chain(std::iter::once(&scn.default)).map(|h| if r.ws { &h.ws_routes } else { &h.routes }).map(|rs| rs.iter().filter(|p| glob_match(p, &r.path)).count()).max().unwrap_or(0);
-                let hmatch = r.host.as_ref().map(|hv| scn.hosts.iter().filter(|h| glob_match(&h.pattern, hv)).count()).unwrap_or(0);
-                if nmatch > 1 || hmatch > 1 {
-                    rr.count("c04.shadowed_route_requests", 1);
-                    if !scn.hosts.is_empty() && reqs.len() >= 2 {
-                        nontrivial = true;
-                    }
-                }
-                let want_text = if r.ws { want.clone().map(|id| format!("WS-HANDLER {}", id)).unwrap_or_default() } else { want.clone().map(|id| format!("200 {}", id)).unwrap_or_else(|| "404 <html><body><h1>404 Not Found</h1></body></html>".to_string()) };
-                let g = got.get(i).cloned().flatten();
-                shape.push_str(&format!("{}>{:?};", if r.ws { "w" } else { "h" }, g.as_ref().map(|x| x.chars().take(12).collect::<String>())));
-                match g {
-                    None => {
-                        if outcome.status == sim::EndStatus::Completed {
-                            rr.violate("C04/R1", format!("no-answer:{}", if r.ws { "ws" } else { "http" }), format!("client {} request {} (Host {:?}, path {:?}) got no response", cid, i, r.host, r.path));
-                        }
-                        break;
-                    }
-                    Some(g) => {
-                        if g != want_text {
-                            // classify: is it the matcher (pattern vs text) or the order?
-                            let kind = if want.is_some() && (g.starts_with("404") || g.is_empty()) {
-                                "matching-route-not-found"
-                            } else if want.is_none() {
-                                "non-matching-route-answered"
-                            } else {
-                                "wrong-handler"
-                            };
-                            rr.violate(
-                                "C04/R1",
-                                format!("{}:{}:{}", kind, if r.ws { "ws" } else { "http" }, if i == 0 { "first-request" } else { "later-request" }),
-                                format!("client {} request {} (Host {:?}, path {:?}, ws {}): answered {:?} but the reference router says {:?}; hosts {:?}, default routes {:?} ws {:?}", cid, i, r.host, r.path, r.ws, g, want_text, scn.hosts.iter().map(|h| format!("{} -> {:?} ws {:?}", h.pattern, h.routes, h.ws_routes)).collect::<Vec<_>>(), scn.default.routes, scn.default.ws_routes),
-                            );
-                            break;
-                        }
-                    }
-                }
-            }
-        }
-        if nontrivial {
-            rr.shapes.push(fnv64(format!("{}|{:?}|{:?}", shape, scn.hosts.iter().map(|h| (h.pattern.clone(), h.routes.len())).collect::<Vec<_>>(), scn.default.routes).as_bytes()));
-        }
-        rr.sample = Some(json!({"hosts": scn.hosts.iter().map(|h| json!({"pattern": h.pattern, "routes": h.routes, "ws": h.ws_routes})).collect::<Vec<_>>(), "default_routes": scn.default.routes, "clients": scn.clients.iter().enumerate().map(|(cid, c)| json!({"requests": c.iter().map(|r| format!("Host={:?} {}{}", r.host, r.path, if r.ws { " (upgrade)" } else { "" })).collect::<Vec<_>>(), "answers": *outs[cid].lock().unwrap()})).collect::<Vec<_>>()}));
+        let got_all: Vec<Vec<Option<String>>> = outs.iter().map(|o| o.lock().unwrap().clone()).collect();
+        judge(&mut rr, &scn, &got_all, outcome.status == sim::EndStatus::Completed);
         rr
     }
 }
